@@ -354,6 +354,39 @@ class Exec:
             return r
         raise OutOfSubset('compare %s %s %s: %s' % (a.kind, op, b.kind, ast.unparse(e)[:60] if e is not None else ''))
 
+    def e_ListComp(self, st, e):
+        r = self._dispatch('listcomp', st, e)
+        if r is not NotImplemented:
+            return r
+        if len(e.generators) != 1 or e.generators[0].ifs or e.generators[0].is_async:
+            raise OutOfSubset('comprehension with filter / several generators: %s' % ast.unparse(e)[:60])
+        g = e.generators[0]
+        it = self.eval(st, g.iter)
+        n, at = self.iterate(st, it)
+        closure_env = dict(st.env)
+        ex = self
+
+        def at2(st2, j):
+            sub = st2.fork(); sub.env = dict(closure_env); sub.pending = []
+            ex.assign(sub, g.target, at(sub, j), None)
+            v = ex.eval(sub, e.elt)
+            st2.pc = sub.pc
+            return v, sub.pending
+        # the comprehension raises iff some element raises: evaluate the element at a fresh index j0
+        j0 = fresh_int('j0')
+        probe = st.fork(); probe.pc.append(And(0 <= j0, j0 < n)); probe.guards = list(st.guards)
+        base = len(probe.pc)
+        _, pend = at2(probe, j0)
+        for o in pend:
+            cond = And(*o.st.pc[base:]) if len(o.st.pc) > base else BoolVal(True)
+            side = st.fork(); side.guards = []
+            side.pc += st.guards + [And(0 <= j0, j0 < n), cond]
+            st.pending.append(Outcome('raise', side, o.val))
+            j = z3.Int(fresh_name('j'))
+            st.assume(z3.ForAll([j], Implies(And(0 <= j, j < n), Not(z3.substitute(cond, (j0, j))))))
+        self.use('axiom:[f(x) for x in xs] has len(xs) elements, the j-th being f(xs[j]); it raises iff some element raises')
+        return SV('lazylist', None, n=n, at=lambda st2, j: at2(st2, j)[0])
+
     def e_Lambda(self, st, e):
         return SV('func', None, node=e, closure=dict(st.env))
 
@@ -414,6 +447,8 @@ class Exec:
                 args, kwargs = self._args(st, e)
             r = self._dispatch('method', st, e, recv, e.func.attr, args, kwargs)
             if r is NotImplemented:
+                if recv.kind == 'obj' and '%s.%s' % (recv.f.get('cls'), e.func.attr) in self.inline:
+                    return self.call_inline_expr(st, '%s.%s' % (recv.f['cls'], e.func.attr), [recv] + args, kwargs)
                 raise OutOfSubset('method %s.%s()' % (recv.kind, e.func.attr))
             return r
         if isinstance(e.func, ast.Name):
@@ -471,11 +506,36 @@ class Exec:
             for a in args[1:]:
                 r = If((a.t < r) if fname == 'min' else (a.t > r), a.t, r)
             return I(r)
+        if fname == 'range' and 1 <= len(args) <= 3 and all(a.kind == 'int' for a in args):
+            lo = args[0].t if len(args) > 1 else IntVal(0)
+            hi = args[1].t if len(args) > 1 else args[0].t
+            step = simplify(args[2].t) if len(args) == 3 else IntVal(1)
+            if not z3.is_int_value(step) or step.as_long() == 0:
+                raise OutOfSubset('range with a symbolic or zero step')
+            k = step.as_long()
+            self.use('axiom:range(a,b,k) is a, a+k, ... strictly before b')
+            if k > 0:
+                n = If(hi > lo, (hi - lo + k - 1) / k, 0)
+            else:
+                n = If(hi < lo, (lo - hi + (-k) - 1) / (-k), 0)
+            return SV('range', None, lo=lo, n=n, step=k)
+        if fname == 'len' and len(args) == 1 and args[0].kind in ('range', 'lazylist'):
+            return I(args[0].n)
         if fname == 'len' and len(args) == 1 and args[0].kind == 'tuple':
             return I(len(args[0].items))
         if fname == 'len' and len(args) == 1 and args[0].kind == 'str' and args[0].t is None:
             return I(len(args[0].lit))
         return NotImplemented
+
+    def iterate(self, st, it):
+        if it.kind == 'range':
+            return it.n, (lambda st2, j: I(it.lo + j * it.step))
+        if it.kind == 'lazylist':
+            return it.n, it.at
+        seq = self._dispatch('iterate', st, it)
+        if seq is NotImplemented:
+            raise OutOfSubset('iteration over %s' % it.kind)
+        return seq
 
     # ------------------------------------------------------------------ calls
     def bind(self, fdef, args, kwargs, closure=None):
@@ -904,9 +964,7 @@ class Exec:
         if s.orelse:
             raise OutOfSubset('for/else')
         it = self.eval(st, s.iter)
-        seq = self._dispatch('iterate', st, it)     # -> (length z3 Int, at(st, k) -> SV)
-        if seq is NotImplemented:
-            raise OutOfSubset('iteration over %s' % it.kind)
+        seq = self.iterate(st, it)     # -> (length z3 Int, at(st, k) -> SV)
         n, at = seq
         pend = self._flush(st)
         kname = spec.name + '.k'
